@@ -96,6 +96,18 @@ box('three_takers', ['TAKE(id0)', 'TAKE_RELEASED(id0)', 'TAKE(id0)'], 'vf_check(
 box('stale_never_matches', ['TAKE(stale)', 'TAKE(id0)'], 'vf_check(won[0]==0, 3); vf_check(won[1]==1 && val[1]==42, 1)')
 box('stale_vs_recycle', ['TAKE(stale)', 'TAKE(id0);EMPLACE_NEW(43);TAKE(idnew)', 'TAKE(stale)'], 'vf_check(won[0]==0 && won[2]==0, 3)')
 
+APX = ['babylon/logging/async_file_appender.cpp', 'babylon/logging/file_object.cpp', 'babylon/logging/log_entry.cpp', 'babylon/reusable/page_allocator.cpp']
+def apx(name, init, ts, final, **kw):
+    kw.setdefault('opts', {'loop:keep_writing': '4'}); kw.setdefault('tiers', ('thorough',)); kw.setdefault('timeout', 5400)
+    S('ap_' + name, 'logging/ap.cpp', {'assert': 'C20'}, defs=['VF_INIT=' + init] + ['VF_T%d=%s' % (i, t) for i, t in enumerate(ts)] + ['VF_FINAL=' + final], extra=APX, **kw)
+S('ap_seq_sizes', 'logging/ap_seq.cpp', {'assert': 'C20'}, extra=APX, models=['sc'], bound=12)
+apx('one_writer', 'ent[0] = make("ab", 2); ent[1] = make("cd", 2)', ['WRITE(0);WRITE(1);CLOSE_MARK()', 'WRITER()'],
+    'vf_check(nfile==4 && filebuf[0]==97 && filebuf[1]==98 && filebuf[2]==99 && filebuf[3]==100, 1)')
+apx('two_writers', 'ent[0] = make("ab", 2); ent[1] = make("cd", 2)', ['WRITE(0);SIGNAL(0)', 'WRITE(1);SIGNAL(1)', 'AWAIT(0);AWAIT(1);CLOSE_MARK()', 'WRITER()'],
+    'vf_check(nfile==4 && ((filebuf[0]==97 && filebuf[1]==98 && filebuf[2]==99 && filebuf[3]==100) || (filebuf[0]==99 && filebuf[1]==100 && filebuf[2]==97 && filebuf[3]==98)), 1)')
+apx('empty_entry', 'ent[0] = make("ab", 2); ent[1] = make("", 0); ent[2] = make("cd", 2)', ['WRITE(0);WRITE(1);WRITE(2);CLOSE_MARK()', 'WRITER()'],
+    'vf_check(nfile==4 && filebuf[0]==97 && filebuf[1]==98 && filebuf[2]==99 && filebuf[3]==100, 2)')
+
 # ----------------------------------------------------------------------------------------------- C04: concurrent vector
 def vec(name, ts, final, extra=(), **kw):
     S('vec_' + name, 'vector/vec.cpp', {'assert': 'C04'}, defs=['VF_T%d=%s' % (i, t) for i, t in enumerate(ts)] + ['VF_FINAL=' + final] + list(extra), **kw)
@@ -136,6 +148,13 @@ eq('inline_two_producers', ['EXEC(0,1);EXEC(1,2)', 'EXEC(0,3)'], ALL3 + ORD12, t
 eq('parked_consumer', ['EXEC(0,1);EXEC(1,2)', 'RUN_PARKED(0)', 'EXEC(0,3)'], ALL3 + ORD12, mode=1, tiers=TH, timeout=3600)
 eq('refused_race', ['EXEC(0,1);EXEC(1,2)', 'EXEC(0,3)'], 'if ((ret[0][1]==0 && ret[1][0]==0)) {' + ALL3 + ORD12 + '}', mode=2, tiers=TH, timeout=3600)
 
+# ----------------------------------------------------------------------------------------------- C18: hash set histories (sequential)
+HSX = ['babylon/concurrent/transient_hash_table.cpp']
+S('hs_default_grow', 'hashset/hs_grow.cpp', {'assert': 'C18'}, extra=HSX, models=['sc'], bound=100, defs=['VF_N=36'])
+S('hs_default_exact2', 'hashset/hs_grow.cpp', {'assert': 'C18'}, extra=HSX, models=['sc'], bound=100, defs=['VF_N=2', 'VF_EXACT=1'])
+S('hs_default_le3', 'hashset/hs_grow.cpp', {'assert': 'C18'}, extra=HSX, models=['sc'], bound=100, defs=['VF_N=3'])
+S('hs_sized16_grow', 'hashset/hs_grow.cpp', {'assert': 'C18'}, extra=HSX, models=['sc'], bound=100, defs=['VF_N=36', 'VF_CTOR=Set(16)'])
+
 # ----------------------------------------------------------------------------------------------- manifest texts
 LEVEL_TEXT = {
  'C01': 'Real ConcurrentBoundedQueue<two-word payload, VS> IR; client programs of 2-4 threads mixing push/pop/try_/push_n/pop_n/callback variants on capacities 1-2; oracle = exactly-once multiset, per-thread FIFO, fully published payload, try_ success when sequenced after enough completed operations.',
@@ -149,4 +168,7 @@ NOT_APPLICABLE = {}
 S('rl_basic', 'vector/rl1.cpp', {'assert': 'C04'})
 S('ht_same_key', 'hashtable/ht1.cpp', {'assert': 'C03'})
 S('ht_find', 'hashtable/ht2.cpp', {'assert': 'C03'})
-S('le_basic', 'logging/le3.cpp', {'assert': 'C20'}, extra=['babylon/logging/log_entry.cpp', 'babylon/reusable/page_allocator.cpp'], models=['sc'], bound=200)
+# ----------------------------------------------------------------------------------------------- C20: logging
+LEX = ['babylon/logging/log_entry.cpp', 'babylon/reusable/page_allocator.cpp']
+S('le_sputc_n40', 'logging/le3.cpp', {'assert': 'C20'}, extra=LEX, models=['sc'], bound=200, defs=['VF_N=40'])
+S('le_sputc_n130', 'logging/le3.cpp', {'assert': 'C20'}, extra=LEX, models=['sc'], bound=400, defs=['VF_N=130'], tiers=('thorough',), timeout=3600, qcap=1800)
